@@ -156,3 +156,8 @@ package cashu
 //@   ensures @nonnil [C19] forall k :: 0 <= k && k < len(rs) ==> rs[k] != nil
 //@   loop 1 invariant 0 <= i && (forall k :: 0 <= k && k < len(rs) ==> rs[k] != nil)
 //@   loop 2 invariant 0 <= i && i < len(blindedMessages) - 1 && i + 1 <= j && (forall k :: 0 <= k && k < len(rs) ==> rs[k] != nil)
+
+// C20: a message that was formatted from an error value of a store / Lightning call may only
+// travel in an error with an internal code (which the HTTP layer replaces by the generic answer).
+// Checked at every BuildCashuError call of every function that carries the tag.
+//@ everycall BuildCashuError asserts @noleak [C20] str.leak(detail) ==> code == cashu.DBErrCode || code == cashu.LightningBackendErrCode
